@@ -4,6 +4,10 @@ use crate::sexp::{self, Sexp};
 use regex::Regex;
 use std::collections::BTreeMap;
 
+/// the model is re-run from the start after every oracle answer; a case whose model runs add up to more than this is
+/// given up (counted, never reported as agreement or as a failure)
+pub const MODEL_BUDGET_S: u64 = 90;
+
 #[derive(Default, Clone)]
 pub struct OracleTable {
     entries: BTreeMap<String, Sexp>,
@@ -75,7 +79,9 @@ impl OracleTable {
                 self.rx_asked += 1;
                 // look ahead along every scan that uses this regex
                 let sets: Vec<Vec<String>> = self.arm_sets.iter().filter(|a| a.contains(&p)).cloned().collect();
-                for arms in sets {
+                let subjects: Vec<(String, usize)> = vec![(s.clone(), i)];
+                for (s, i) in subjects {
+                  for arms in sets.iter().cloned() {
                     let mut j = i;
                     for _ in 0..400 {
                         if j >= s.len() || !s.is_char_boundary(j) {
@@ -101,6 +107,7 @@ impl OracleTable {
                             _ => break,
                         }
                     }
+                  }
                 }
                 true
             }
@@ -118,7 +125,11 @@ impl OracleTable {
 
 /// send `build(oracle)` until the driver stops asking for oracle answers
 pub fn ask_with_oracle(drv: &mut Driver, table: &mut OracleTable, build: &dyn Fn(&Sexp) -> Sexp) -> Sexp {
+    let started = std::time::Instant::now();
     for _ in 0..10_000 {
+        if started.elapsed().as_secs() > MODEL_BUDGET_S {
+            return sexp::atom("model-too-slow");
+        }
         let req = build(&table.to_sexp());
         let t0 = std::time::Instant::now();
         let resp = drv.ask(&req);
